@@ -28,7 +28,7 @@ fn pick_bound(tag: &str) -> f64 {
 }
 
 /// plant right-hand sides that are "infinite" for some of the candidate bounds
-fn plant(prob: &mut Prob) -> usize {
+pub fn plant(prob: &mut Prob) -> usize {
     let row_cone = prob.row_cone();
     let mut planted = 0;
     for i in 0..prob.m {
@@ -194,7 +194,7 @@ fn explain(
             z: kept.iter().map(|&i| snap.z[i]).collect(),
             ..snap.clone()
         };
-        if let Some(d) = proj.diff_bitwise(r) {
+        if let Some(d) = proj.diff_numeric(r) {
             return Err(format!(
                 "solve #{}: kept entries differ from the hand-reduced reference under bound {:e}: {}",
                 k, v, d
